@@ -1,6 +1,6 @@
 \* C02/C13 thorough: all graph families, 3 block heights, states reached through a reorg kept apart (PathView).
 CONSTANTS
-  GraphIds = {1,2,3,4,5,6,7,8,9}
+  GraphIds = {1,2,3,4,5,6,7,8,9,12}
   MaxTip = 3
   Mat = 2
   LeaseIds = {1}
